@@ -345,7 +345,7 @@ pub fn run(rep: &mut Report, thorough: bool) {
         for lists in [false, true] {
             let mut cfg = Cfg::base().with_log(logger, Level::Off);
             if lists {
-                cfg = cfg.with_self(&self_ips()).with_deny(&deny_ips());
+                cfg = cfg.with_self(&self_ips()).with_deny(&deny_ips()).with_log(logger, Level::Trace);
             }
             let tag = format!("{:?}-{}", logger, if lists { "lists" } else { "plain" }).to_lowercase();
             let cookies = learn_cookies(&Cfg::base(), &[flow4(40000, 80), flow6(40000, 80)]).unwrap_or_default();
